@@ -106,3 +106,40 @@ Lemma ex_write_two : exists s o, run ex_u8 (init ex_u8)
   rx_replies o = [(1, [3; 0; 0; 9]); (2, [3; 0; 2])] /\ get_value ex_u8 s 0 = Some (VInt 2) /\
   upd_calls o = [(1000, 0, VInt 9); (1003, 0, VInt 9); (1000, 0, VInt 2); (1003, 0, VInt 2)] /\ s_lock s = false.
 Proof. eexists. eexists. split; vm_compute; [reflexivity|repeat split; reflexivity]. Qed.
+
+(* ---- a dispatcher whose callbacks share a MUTABLE packet, with an updater that strips the command byte of a
+        MISC_VALUE_UPDATED notification in place: the closures, which run after the updater, are handed the stripped bytes *)
+Definition deliver_strip (c : config) (s : state) : option (state * list obs) :=
+  match d_out s with
+  | [] => None
+  | p :: rest =>
+    let s0 := set_dev s (d_store s) (d_stored s) rest in
+    let '(s1, o1) := updater_cb c p s0 in
+    let p' := if (fst p =? 3) && match snd p with 1 :: _ => true | _ => false end then (3, tl (snd p)) else p in
+    let ks := s_clos s1 in
+    Some (set_clos s1 (filter (fun k => negb (clo_fires (idmatch c) p' k)) ks), ORx p :: o1 ++ clo_obs (idmatch c) p' ks)
+  end.
+
+Fixpoint run_strip (c : config) (s : state) (evs : list event) : option (state * list obs) :=
+  match evs with
+  | [] => Some (s, [])
+  | e :: r =>
+    match (match e with EvDeliver => deliver_strip c s | _ => step c s e end) with
+    | None => None
+    | Some (s1, o1) => match run_strip c s1 r with None => None | Some (s2, o2) => Some (s2, o1 ++ o2) end
+    end
+  end.
+
+(* get_default_value of parameter 0 (uint8, default 7) is outstanding; the device reports a new value 0x2A00 of parameter 6
+   (uint16): index 6 = MISC_GET_DEFAULT_VALUE | (0 << 8), first value byte 0 = high byte of index 0 *)
+Definition ex_al : config :=
+  mkCfg [mkElem 0 0 0 TU8 false true; mkElem 6 1 1 TU16 false false] [] [] [] [(0, [1]); (6, [5; 0])] [(0, [7]); (6, [9; 0])] [] true.
+Definition ex_al_events : list event := [EvMisc 6 0 (Some 1); EvUGet; EvNotify 6 [0; 42]; EvUSend; EvDeliver; EvDeliver].
+
+Lemma ex_strip_misattributes : exists s o, run_strip ex_al (init ex_al) ex_al_events = Some (s, o) /\
+  misc_calls o = [(1, 0, MDefault (VInt 42))] /\ s_clos s = [].
+Proof. eexists. eexists. split; vm_compute; [reflexivity|split; reflexivity]. Qed.
+
+Lemma ex_by_value : exists s o, run ex_al (init ex_al) ex_al_events = Some (s, o) /\
+  misc_calls o = [(1, 0, MDefault (VInt 7))] /\ s_clos s = [] /\ cache_get 6 (s_cache s) = Some (VInt 10752).
+Proof. eexists. eexists. split; vm_compute; [reflexivity|repeat split; reflexivity]. Qed.
